@@ -204,6 +204,47 @@ example :
       ((E.doEvents (1/2) s).te.all fun τ => decide (3/10 - 1/2^30 ≤ τ ∧ τ ≤ 3/10 + 1/2^30 ∧ τ ≠ 3/10)) = true := by
   decide +kernel
 
+/-! ### from detection to location -/
+
+theorem C10_crossing_is_genuine {α : Type} (E : RodasEnv α) (s : RodasState α) (i : Nat)
+    (hval : s.value = E.evalEvents s.told) (hlen : s.vref.length = s.value.length)
+    (hnz : E.isZero (E.evalAt i s.told) = false) (hi : i ∈ E.crossings s) :
+    E.opp (E.evalAt i s.t) (E.evalAt i s.told) = true := by
+  obtain ⟨hlt, hopp⟩ := (C10_crossings_iff E s i).mp hi
+  have hv : i < s.value.length := by rw [hval, evalEvents_length]; exact hlt
+  have hr : i < s.vref.length := by rw [hlen]; exact hv
+  rw [C10_reference_value E s i hv hr] at hopp
+  have e : s.value.getD i E.O.zero = E.evalAt i s.told := by rw [hval]; rfl
+  rw [e, hnz] at hopp
+  simpa [evalAt] using hopp
+
+/-- **From detection to location, for every event function** (ℚ): on a step whose stored values are those of its start, a component
+the event block examines (not exactly zero at the start) genuinely changes sign over the step, and the time `locate` returns for it
+lies in a sub-interval of the step across which it changes sign, narrower than the location tolerance (or 2⁻⁹⁹ of the step) unless the
+returned time is an exact zero -/
+theorem C10_examined_component_located (E : RodasEnv ℚ) (hO : E.O = ratO) (hh : E.half = 1 / 2) (s : RodasState ℚ) (i : Nat)
+    (hval : s.value = E.evalEvents s.told) (hlen : s.vref.length = s.value.length)
+    (hnz : E.isZero (E.evalAt i s.told) = false) (hi : i ∈ E.crossings s) (ht : s.told ≤ s.t) :
+    ∃ a b, s.told ≤ a ∧ a ≤ (E.locate (s.t - s.told) s (E.evalAt i s.told) (E.evalAt i s.t) i).1 ∧
+      (E.locate (s.t - s.told) s (E.evalAt i s.told) (E.evalAt i s.t) i).1 ≤ b ∧ b ≤ s.t ∧
+      E.opp (E.evalAt i a) (E.evalAt i b) = true ∧
+      (E.evalAt i (E.locate (s.t - s.told) s (E.evalAt i s.told) (E.evalAt i s.t) i).1 = 0 ∨ b - a < locTol E s ∨
+        b - a ≤ (s.t - s.told) / 2 ^ 99) := by
+  have h := C10_crossing_is_genuine E s i hval hlen hnz hi
+  have h' : E.opp (E.evalAt i s.told) (E.evalAt i s.t) = true := by
+    rw [opp_iff E hO] at h ⊢; tauto
+  exact C10_locate_sound E hO hh i s (s.t - s.told) rfl ht h'
+
+/-- the hypotheses hold on a real step: g(τ) = (τ − 3/10)(τ − 7/10) on the first step [0, 1/2] of a run -/
+example :
+    let E : RodasEnv ℚ := { O := ratO, spacing := fun _ => 1 / 2 ^ 40, uround := 0, tiny := 0, half := 1/2, c128 := 128,
+                            tspan := [0, 1], opt := ⟨1/5, 6, 6, none, none, false, 1/100000000⟩,
+                            events := [⟨0, 0, false⟩], gfun := some fun _ τ => (τ - 3/10) * (τ - 7/10) }
+    let s : RodasState ℚ := { E.init with t := 1/2, told := 0 }
+    s.value = E.evalEvents s.told ∧ s.vref.length = s.value.length ∧ E.isZero (E.evalAt 0 s.told) = false ∧ 0 ∈ E.crossings s ∧
+      s.told ≤ s.t := by
+  decide +kernel
+
 /-- the search for the event time no longer depends on the scale of the event function: for every scale c > 0 the values c·v0 < 0 < c·v1
 differ, so the secant start and the bisection are entered (before the repair `|v1 − v0| > uround` skipped them for small c) -/
 theorem C10_search_entered_at_any_scale (E : RodasEnv ℚ) (hO : E.O = ratO) (v0 v1 c : ℚ) (h0 : v0 < 0) (h1 : 0 < v1) (hc : 0 < c) :
